@@ -61,6 +61,13 @@ def native_check(seed=0, trees=60, depth=6):
             fails.append((repr(o)[:200], "statistics differ from those of the combined per-sample value"))
         if not torch.equal(samples, keep):
             fails.append((repr(o)[:200], "samples modified"))
+    st = states[1]
+    samples = torch.tensor(rng.integers(0, 2, size=(6, 3)), dtype=torch.double)
+    for o, f in ((SigmaZ() + SigmaZ(absolute=True), lambda s: SigmaZ().apply(st, s) + SigmaZ(absolute=True).apply(st, s)),
+                 (SWAP([0, 1]) + SWAP([2]), lambda s: SWAP([0, 1]).apply(st, s) + SWAP([2]).apply(st, s))):
+        n += 1
+        if not torch.allclose(o.apply(st, samples), f(samples), rtol=1e-10, atol=1e-12):
+            fails.append((repr(o), "sum of two observables that share a name differs from the sum of their values"))
     for bad in (lambda: SigmaX() * SigmaZ(), lambda: ProdObservable(2, 3)):
         try:
             bad()
